@@ -183,6 +183,10 @@ func (cmd *RequestCommand) populate(raw *rawEnvelope) error {
 		return err
 	}
 
+	if raw.URI == nil {
+		return errors.New("command uri is required")
+	}
+
 	cmd.URI = raw.URI
 
 	return nil
